@@ -10,7 +10,7 @@
    Float premises addsub_float_exact / mul_float_exact (below 2^31 s) and C09's float_split_exact_on_D9 are NOT proved: explicit arguments of *_partial. *)
 From Coq Require Import ZArith List Bool.
 From Coq Require Import Floats.SpecFloat.
-From PV Require Import Lib.PyBase Spec.TdFloat Gen.Constants Model.Duration Gen.DurationOps Model.DurationOps Proofs.C09Facts Proofs.C10Facts.
+From PV Require Import Lib.PyBase Spec.TdFloat Gen.Constants Model.Duration Gen.DurationOps Model.DurationOps Proofs.C09Facts Proofs.C10Facts Proofs.C10History.
 Import ListNotations.
 Open Scope Z_scope.
 
@@ -195,6 +195,15 @@ Theorem mul_int_exact_refuted : exists d r,
 Proof. exact C10Facts.mul_int_exact_refuted. Qed.
 Print Assumptions mul_int_exact_refuted.
 
+(* CURRENT CODE (finding float-total-resolution, the region with years / months): `* int` scales the float _total, the year-free part, so a
+   Duration whose native length is 0.924991 s but whose year-free part is 50112000.924991 s is 3 us off after * -1000 (years, months exact) *)
+Theorem mul_int_with_years_refuted : exists d r,
+  duration_new 0 0 50112000924991 0 0 0 0 (-2) 5 = Ok d /\ d_N d = 924991 /\ exact_ym d
+  /\ dur_mul d (VInt (-1000)) = Ok (RDur r) /\ d_years r = 2000 /\ d_months r = -5000
+  /\ d_N r = -1000 * d_N d + 3 /\ Z.abs (-1000 * d_N d) < B31.
+Proof. exact C10History.mul_int_with_years_refuted. Qed.
+Print Assumptions mul_int_with_years_refuted.
+
 (* ---- the return-type table *)
 (* every Duration method returns what the table GENERATED from the isinstance tests of duration.py says for that operand kind *)
 Theorem return_table : forall m d o r, In m [1; 2; 4; 5; 6; 7; 8] -> dur_method m d o = Ok r ->
@@ -279,3 +288,86 @@ Theorem divmod_example : exists d1 d2 r,
   /\ dur_method 8 d1 (VDur d2) = Ok (RPair (-15) r) /\ d_N r = d_N d1 mod d_N d2.
 Proof. exact mod_divmod_example. Qed.
 Print Assumptions divmod_example.
+
+(* ---- a whole PROCESS: several operator calls one after the other (Model/DurationOps.run_history; the history streams run it against
+   one interpreter).  The operators keep no state: the only thing a call sees of the calls before it is an object handed on (ORef). *)
+(* what has been returned is never revised by later calls *)
+Theorem history_prefix_stable : forall h t, run_history (h ++ t) = run_history h ++ run_from (run_history h) t.
+Proof. exact C10History.history_prefix_stable. Qed.
+Print Assumptions history_prefix_stable.
+
+(* a call on freshly constructed operands gives the same outcome after ANY two histories (and whatever follows): that of the call alone *)
+Theorem result_independent_of_history : forall h1 t1 h2 t2 s, literal_step s ->
+  nth_error (run_history (h1 ++ s :: t1)) (length h1) = Some (eval_step [] s)
+  /\ nth_error (run_history (h2 ++ s :: t2)) (length h2) = Some (eval_step [] s).
+Proof. exact C10History.result_independent_of_history. Qed.
+Print Assumptions result_independent_of_history.
+
+(* ... and that outcome is the single-operator model `binop` of all the theorems above; in particular after a first call that raised *)
+Theorem history_step_is_binop : forall env m a b, is_pendulum a || is_pendulum b = true ->
+  eval_step env (HBin m (OLit (Ok a)) (OLit (Ok b))) = binop m a b.
+Proof. exact literal_binop_step. Qed.
+Print Assumptions history_step_is_binop.
+
+Theorem earlier_call_leaves_no_trace : forall first m a b, is_pendulum a || is_pendulum b = true ->
+  run_history [first; HBin m (OLit (Ok a)) (OLit (Ok b))] = [eval_step [] first; binop m a b].
+Proof. exact C10History.earlier_call_leaves_no_trace. Qed.
+Print Assumptions earlier_call_leaves_no_trace.
+
+(* Duration or plain timedelta as the divisor: the same outcome at every position of every history *)
+Theorem history_divisor_kind_irrelevant : forall h t1 t2 m d d2, (m = 5 \/ m = 6 \/ m = 7 \/ m = 8) -> exact0 d2 ->
+  nth_error (run_history (h ++ HBin m (OLit (Ok (VDur d))) (OLit (Ok (VTd (d_N d2)))) :: t1)) (length h)
+  = nth_error (run_history (h ++ HBin m (OLit (Ok (VDur d))) (OLit (Ok (VDur d2))) :: t2)) (length h).
+Proof. exact C10History.history_divisor_kind_irrelevant. Qed.
+Print Assumptions history_divisor_kind_irrelevant.
+
+(* reading every accessor of a Duration hands on the same object *)
+Theorem touch_hands_on_the_object : forall d m o, is_pendulum (VDur d) || is_pendulum o = true ->
+  run_history [HUn M_TOUCH (OLit (Ok (VDur d))); HBin m (ORef 0) (OLit (Ok o))] = [Ok (RDur d); binop m (VDur d) o].
+Proof. exact C10History.touch_hands_on_the_object. Qed.
+Print Assumptions touch_hands_on_the_object.
+
+(* an object handed on: the Duration that d % n returns, divided again (// or /), gives what timedelta gives on the native remainder
+   (C09's float premise for the construction of the remainder; |n| < 2^33 s) *)
+Theorem chain_mod_then_div_partial : float_split_exact_on_D9 ->
+  forall d n k m, (m = 5 \/ m = 6) -> exact0 d -> n <> 0 -> Z.abs n < B33 ->
+  exists r, run_history [HBin 7 (OLit (Ok (VDur d))) (OLit (Ok (VTd n))); HBin m (ORef 0) (OLit (Ok (VTd k)))]
+            = [Ok (RDur r); td_binop m (d_N d mod n) k]
+            /\ d_N r = d_N d mod n /\ exact0 r.
+Proof. exact chain_mod_then_div. Qed.
+Print Assumptions chain_mod_then_div_partial.
+
+(* a concrete process: x = Duration(days=1000, seconds=5, microseconds=7) divided first by Duration(years=1, days=1) [== timedelta(days=366)],
+   then // and % timedelta(days=366) give timedelta's 2 and 268 d 5.000007 s; the remainder OBJECT // 1 s = 23155205; touching it returns it *)
+Theorem history_example : exists x a r,
+  duration_new 1000 5 7 0 0 0 0 0 0 = Ok x /\ exact0 x /\ duration_new 1 0 0 0 0 0 0 1 0 = Ok a /\ d_N a = 366 * DAYUS
+  /\ run_history [HBin 5 (OLit (Ok (VDur x))) (OLit (Ok (VDur a)));
+                  HBin 5 (OLit (Ok (VDur x))) (OLit (Ok (VTd (366 * DAYUS))));
+                  HBin 7 (OLit (Ok (VDur x))) (OLit (Ok (VTd (366 * DAYUS))));
+                  HBin 5 (ORef 2) (OLit (Ok (VTd 1000000)));
+                  HUn M_TOUCH (ORef 2)]
+     = [Ok (RInt 1000); Ok (RInt 2); Ok (RDur r); Ok (RInt 23155205); Ok (RDur r)]
+  /\ d_N r = d_N x mod (366 * DAYUS) /\ exact0 r /\ td_binop 5 (d_N x) (366 * DAYUS) = Ok (RInt 2).
+Proof. exact C10History.history_example. Qed.
+Print Assumptions history_example.
+
+(* ---- why histories.  COUNTER-MODEL memo_divisors: the divisor conversion behind a memo keyed by what timedelta's == / hash see.
+   It is invisible while every operand's conversion is its native length (plain timedeltas, Durations without years / months) ... *)
+Theorem divisor_memo_transparent_without_years : forall os,
+  (forall o k, In o os -> td_key o = Some k -> divisor_us o = Some k) -> memo_divisors [] os = map divisor_us os.
+Proof. exact memo_transparent_without_years. Qed.
+Print Assumptions divisor_memo_transparent_without_years.
+
+Theorem divisor_of_year_free_operands : (forall d, exact0 d -> td_key (VDur d) = Some (d_N d) /\ divisor_us (VDur d) = Some (d_N d))
+  /\ (forall n, td_key (VTd n) = Some n /\ divisor_us (VTd n) = Some n).
+Proof. exact (conj exact0_key_is_divisor plain_key_is_divisor). Qed.
+Print Assumptions divisor_of_year_free_operands.
+
+(* ... and wrong as soon as ONE Duration with years converted earlier: Duration(years=1, days=1) == timedelta(days=366) poisons 366 days *)
+Theorem divisor_memo_by_timedelta_eq_refuted : exists d,
+  duration_new 1 0 0 0 0 0 0 1 0 = Ok d /\ d_N d = 366 * DAYUS
+  /\ map divisor_us [VDur d; VTd (366 * DAYUS)] = [Some DAYUS; Some (366 * DAYUS)]
+  /\ memo_divisors [] [VDur d; VTd (366 * DAYUS)] = [Some DAYUS; Some DAYUS]
+  /\ memo_divisors [] [VTd (366 * DAYUS); VDur d] = [Some (366 * DAYUS); Some (366 * DAYUS)].
+Proof. exact memo_by_timedelta_eq_refuted. Qed.
+Print Assumptions divisor_memo_by_timedelta_eq_refuted.
